@@ -3,7 +3,8 @@ from common import *
 import importlib, pkgutil, hashlib
 import pycoin.symbols as _symbols
 from pycoin.encoding.b58 import b2a_hashed_base58, b2a_base58
-from pycoin.networks.parseable_str import parse_b58_double_sha256, parse_bech32
+from pycoin.networks.parseable_str import parse_b58_double_sha256, parse_bech32, parseable_str
+import itertools
 from pycoin.contrib import bech32m
 from pycoin.key.BIP49Node import BIP49Node
 from pycoin.key.BIP84Node import BIP84Node
@@ -336,6 +337,87 @@ def foreign_cases(rng):
 
 
 # ------------------------------------------------------------------------------------------------
+# one parseable_str object offered to several networks in turn (pycoin.cmds.ku.parse_key)
+def sibling_groups():
+    """standard networks sharing a network_name (BTC/XTN/XRT "Bitcoin", LTC/XLT, ZEC/tZEC ...)"""
+    g = {}
+    for sym in SYMS:
+        g.setdefault(NETS[sym].network_name, []).append(sym)
+    return [v for _, v in sorted(g.items()) if len(v) > 1]
+
+
+def history_sequences(rng, tier):
+    """(sequence of symbols, string): every ordering of 2..4 members of every sibling group (exhaustive) on the addresses of
+    each member, every ordered pair of networks sharing a prefix or hrp, and random sequences of 2-4 networks"""
+    out = []
+    for grp in sibling_groups():
+        strings = []
+        for sym in grp:
+            for k in kinds_of(NETS[sym]):
+                strings.append(addr_of(NETS[sym], k, rb(rng, KIND_LEN[k])))
+        strings += ["", "xyz", strings[0].upper(), strings[0][:-1]]
+        for n in range(2, min(4, len(grp)) + 1):
+            for seq in itertools.permutations(grp, n):
+                for s in strings:
+                    out.append((list(seq), s))
+        for sym in grp:       # the same network twice, and around a sibling
+            out.append(([sym, sym], strings[0]))
+            out.append(([sym, grp[0], sym], strings[-5] if len(strings) > 5 else strings[0]))
+    # networks with a common prefix / hrp (not necessarily the same name)
+    for a in SYMS:
+        for b in SYMS:
+            if a != b and any(x is not None and x in prefixes(NETS[b]) for x in prefixes(NETS[a])):
+                for k in kinds_of(NETS[a]):
+                    if rng.random() < (1.0 if tier == "thorough" else 0.25):
+                        out.append(([b, a], addr_of(NETS[a], k, rb(rng, KIND_LEN[k]))))
+    for _ in range(400 if tier == "quick" else 8000):
+        seq = [rng.choice(SYMS) for _ in range(rng.randint(2, 4))]
+        src = NETS[rng.choice(seq + [rng.choice(SYMS)])]
+        k = rng.choice(kinds_of(src))
+        out.append((seq, addr_of(src, k, rb(rng, KIND_LEN[k]))))
+    return out
+
+
+def _impl_parse_seq(seq, s):
+    ps = parseable_str(s)
+    res = []
+    for sym in seq:
+        net = NETS[sym]
+        try:
+            c = net.parse.address(ps)
+            if c is None:
+                res.append("N")
+            else:
+                # script() and address() are computed by the network the Contract is bound to; the model computes them on
+                # the network that was asked
+                res.append("(" + canon(canon_info(c.info())) + " " + call(c.script) + " " + call(c.address) + ")")
+        except Exception as e:  # noqa
+            res.append("!" + exn_tag(e))
+    return "[" + " ".join(res) + "]"
+
+
+def chk_history(seq, s, via="address"):
+    """each network's answer to a SHARED parseable_str equals its answer to a fresh str, and the Contract belongs to the
+    network that was asked"""
+    ps = parseable_str(s)
+    for i, sym in enumerate(seq):
+        net = NETS[sym]
+        f = getattr(net.parse, via)
+        got = f(ps)
+        want = f(str(s))
+        if (got is None) != (want is None):
+            return {"kind": "shared-string-verdict-differs", "step": i, "net": sym, "seq": seq, "string": s,
+                    "shared": None if got is None else got.address(), "fresh": None if want is None else want.address()}
+        if got is not None:
+            if got._network is not net:
+                return {"kind": "contract-bound-to-other-network", "step": i, "net": sym, "seq": seq, "string": s,
+                        "bound_to": getattr(got._network, "symbol", "?")}
+            if got.script() != want.script() or got.address() != want.address() or got.info() != want.info():
+                return {"kind": "shared-string-contract-differs", "step": i, "net": sym, "seq": seq, "string": s}
+    return None
+
+
+# ------------------------------------------------------------------------------------------------
 # implementation thunks
 def _impl_for_kind(k, p):
     f = [C.for_p2pkh, C.for_p2sh, C.for_p2pkh_wit, C.for_p2sh_wit, C.for_p2tr, C.for_p2pk, C.for_nulldata][k]
@@ -467,6 +549,10 @@ def model_cases(rng, tier):
                 yield Case("parse %s %s %s" % (nm, which, sarg(s)), (lambda net=net, which=which, s=s: xcall(_impl_parse, net, which, s)))
         for s in samples[:5] + ["", "xyz"]:
             yield Case("for_address %s %s" % (nm, sarg(s)), (lambda net=net, s=s: call(net.contract.for_address, s)))
+    # ---- one parseable_str through several networks
+    for seq, st in history_sequences(rng, tier):
+        yield Case("parse_seq %s %s" % (",".join(arg(x.encode()) for x in seq), sarg(st)),
+                   (lambda seq=seq, st=st: _impl_parse_seq(seq, st)))
     # ---- key -> address
     for sym in SYMS:
         net = NETS[sym]
@@ -713,6 +799,15 @@ def prop_cases(rng, tier):
     for sym in SYMS[::4] + ["BTC"]:
         for s in own_strings(rng, NETS[sym], "quick"):
             yield PropCase("codec_premises", {"string": s}, (lambda s=s: chk_codec_b58_dec(s) or chk_codec_seg_parse(s)))
+    # history: one parseable_str object through sequences of networks; exhaustive over ordered pairs x the second one's kinds
+    for seq, st in history_sequences(rng, tier):
+        for via in ("address", "payable"):
+            yield PropCase("history", {"seq": seq, "string": st, "via": via}, (lambda seq=seq, st=st, via=via: chk_history(seq, st, via)))
+    for a in SYMS:
+        for b in SYMS:
+            for k in kinds_of(NETS[b]):
+                st = addr_of(NETS[b], k, rb(rng, KIND_LEN[k]))
+                yield PropCase("history", {"seq": [a, b], "string": st, "via": "address"}, (lambda a=a, b=b, st=st: chk_history([a, b], st)))
     yield PropCase("classify", {"script": "regression:multisig17"}, _regress_multisig17)
     # the six prefix-of-prefix offenders of DESIGN.md section 7 #17 (fixed in /repo): named regressions
     for a, k, b in (("ZEC", 0, "CHC"), ("ZEC", 1, "CHC"), ("tZEC", 1, "CHC"), ("PIVX", 1, "BTC"), ("PIVX", 1, "BCH"), ("DCRT", 1, "FTC")):
@@ -731,6 +826,8 @@ def replay_input(check, inp):
         return chk_accept(inp["net"], inp["string"])
     if check == "cross":
         return chk_cross(inp["a"], inp["kind"], bytes.fromhex(inp["payload"]), inp["b"])
+    if check == "history":
+        return chk_history(inp["seq"], inp["string"], inp.get("via", "address"))
     if check == "classify":
         if inp["script"].startswith("regression:"):
             return _regress_multisig17()
@@ -784,6 +881,10 @@ def search(rng, tier, disagreements, known_ids):
                 for k in kinds_of(NETS[sym]):
                     p = rb(rng, KIND_LEN[k])
                     cands.append(PropCase("roundtrip", {"net": sym, "kind": k, "payload": p.hex()}, (lambda sym=sym, k=k, p=p: chk_roundtrip(sym, k, p))))
+            elif fn == "parse_seq":
+                seq = [bytes.fromhex(t[1:]).decode() for t in toks[1].split(",")]
+                st = bytes.fromhex(toks[2][1:]).decode("utf8")
+                cands.append(PropCase("history", {"seq": seq, "string": st, "via": "address"}, (lambda seq=seq, st=st: chk_history(seq, st))))
             elif fn == "addr":
                 sym = bytes.fromhex(toks[1][1:]).decode()
                 for k in kinds_of(NETS[sym]):
